@@ -53,7 +53,9 @@ fn compare_graph(w: &World, g: &Graph) -> Vec<String> {
     for (v, (x, y)) in w.coords.iter().enumerate() {
         match g.get_vertex(&VertexId(v)) {
             Ok(vx) => {
-                if vx.vertex_id.0 != v || vx.x() != *x as f32 || vx.y() != *y as f32 {
+                // (a coordinate listed with some twenty digits: the nearest f32 to the decimal as written)
+                let want_x = w.x_text.get(&v).and_then(|t| t.parse::<f32>().ok()).unwrap_or(*x as f32);
+                if vx.vertex_id.0 != v || vx.x() != want_x || vx.y() != *y as f32 {
                     d.push(format!("vertex {} is ({},{}) but the file says ({},{})", v, vx.x(), vx.y(), x, y));
                 }
             }
@@ -562,6 +564,18 @@ impl Check for C15 {
                 w.edges.push((a, b, crate::world::q6(10.0 + r.f64() * 1000.0)));
                 w.speeds.push(crate::world::q6(10.0 + r.f64() * 100.0));
                 w.grades.push(0.0);
+            }
+        }
+        // coordinates written with far more digits than an f32 holds, a hair beyond the midpoint of two neighbouring
+        // f32 values (round 7; a stream of its own)
+        let mut r7 = Rng::new(seed ^ fnv64("C15-long-coordinates"));
+        if r7.chance(0.15) {
+            for v in 0..w.nv() {
+                if r7.chance(0.5) {
+                    let t = crate::world::just_beyond_f32_midpoint(w.coords[v].0 as f32);
+                    w.coords[v].0 = t.parse::<f64>().unwrap_or(w.coords[v].0);
+                    w.x_text.insert(v, t);
+                }
             }
         }
         w.gz_edges = r.chance(0.5);
